@@ -1,4 +1,5 @@
 import AgModel.Proofs.PoolGlue
+import AgModel.Model.Votor
 /-!
 # C18 — Standstill recovery re-broadcasts a bundle sufficient to catch up, at any time
 
@@ -161,3 +162,37 @@ theorem bundle_replay_far_witness :
       (poolRun { epoch := e } [.cert ⟨.ff, 40000, 2, [0, 1, 2], [], 3⟩]).1.fin.highest = 0 := by decide
 
 end AgModel.Pool
+
+/-! ### the voting component forwards the bundle, whatever its own pruning state -/
+namespace AgModel.Votor
+
+theorem emitAll_log (v : V) (os : List Out) : (v.emitAll os).log = (os.map Item.out).reverse ++ v.log := by
+  induction os generalizing v with
+  | nil => rfl
+  | cons o os ih => simp only [V.emitAll, ih, V.emit, List.map_cons, List.reverse_cons, List.append_assoc, List.singleton_append]
+
+/-- **Always forwarded.** For every state of the voting component that has not crashed — any highest final
+    certificate slot, any pruning watermark, any retired slots — a `Standstill` event makes it hand over
+    *exactly* the bundle (every element, in order, nothing else), and changes nothing else. The bundle is abstract here (a
+    list of element ids: the Lean pool model produces it, the harness checks the ids are the real certificates and
+    votes). -/
+theorem votor_forwards_bundle (v : V) (hp : v.panicked = false) (s : Nat) (bundle : List Nat) :
+    (step v (.standstill s bundle)).log = (bundle.map (fun r => Item.out (.relay r))).reverse ++ .ev (.standstill s bundle) :: v.log ∧
+    (step v (.standstill s bundle)).slots = v.slots ∧ (step v (.standstill s bundle)).hfcs = v.hfcs ∧
+    (step v (.standstill s bundle)).panicked = false := by
+  have hl : ∀ (w : V) (os : List Out), (w.emitAll os).slots = w.slots ∧ (w.emitAll os).hfcs = w.hfcs ∧ (w.emitAll os).panicked = w.panicked := by
+    intro w os
+    induction os generalizing w with
+    | nil => exact ⟨rfl, rfl, rfl⟩
+    | cons o os ih => simp only [V.emitAll]; exact ih (w.emit o)
+  unfold step
+  simp only [hp, Bool.false_eq_true, if_false, V.ignores, V.handle]
+  obtain ⟨a, b, c⟩ := hl (v.logEv (.standstill s bundle)) (bundle.map .relay)
+  refine ⟨?_, a, b, c.trans hp⟩
+  rw [emitAll_log]
+  simp [V.logEv, List.map_map, Function.comp_def]
+
+example : (step { init with hfcs := 40 } (.standstill 3 [7, 8])).log = [.out (.relay 8), .out (.relay 7), .ev (.standstill 3 [7, 8])] ++ init.log := by decide
+
+end AgModel.Votor
+
